@@ -23,7 +23,7 @@ import (
 
 func TestMain(m *testing.M) {
 	time.Local = time.UTC
-	ev.Describe("client configurations: 0..6 controllers, each {not configured, zero-value address, 0.0.0.0:port, address:0, valid address:port} x protocol {udp, tcp, '', any, TCP, other} (struct literal or NewDevice) x bind {0.0.0.0, 127.0.0.x} x {port 0, fixed} x broadcast {unset, set}; then a random operation on a random configured or unknown controller, or discovery. Hook layer: the recording in-memory driver must see exactly one invocation of exactly the method and destination a reference routing function prescribes (255.255.255.255:60000 when no broadcast address is configured). Socket layer: the farm opens a UDP and a TCP endpoint for every address in play plus decoys; after the call exactly the expected endpoint holds exactly one request (one datagram / one connection carrying 64 bytes equal to the protocol encoding), every other endpoint nothing, and the observed source address equals the bind address (IP when specific, port when fixed). Non-trivial = configuration with >= 2 controllers of different kinds or a fallback-to-broadcast controller; distinct = distinct (configuration, call).",
+	ev.Describe("client configurations: 0..6 controllers, each {not configured, zero-value address, 0.0.0.0:port, address:0, valid address:port} x protocol {udp, tcp, '', any, TCP, other} (struct literal or NewDevice) x bind {0.0.0.0, 127.0.0.x} x {port 0, fixed} x broadcast {unset, set} x debug {off, on} x configured controller time zone; addressed controller {answers at once, answers late, silent, port closed (refuses)}; then a random operation on a random configured or unknown controller, or discovery. Hook layer: the recording in-memory driver must see exactly one invocation of exactly the method and destination a reference routing function prescribes (255.255.255.255:60000 when no broadcast address is configured). Socket layer: the farm opens a UDP and a TCP endpoint for every address in play plus decoys; after the call exactly the expected endpoint holds exactly one request (one datagram / one connection carrying 64 bytes equal to the protocol encoding), every other endpoint nothing, and the observed source address equals the bind address (IP when specific, port when fixed). Non-trivial = configuration with >= 2 controllers of different kinds or a fallback-to-broadcast controller; distinct = distinct (configuration, call).",
 		"socket layer: controller / broadcast addresses are loopback addresses 127.0.x.y with ephemeral ports; the real limited broadcast 255.255.255.255:60000 is exercised by shard 0 when port 60000 is free (otherwise skipped and counted)")
 	ev.Main(m, "C06")
 }
@@ -34,7 +34,9 @@ type routeCase struct {
 	Call   api.Case       `json:"call"`
 	Decoys int            `json:"decoys"`
 	// Behaviour of the addressed endpoint: 0 answers at once, 1 answers after 70% of the timeout, 2 stays silent
-	// (a slow or silent controller must still see exactly one request)
+	// (a slow or silent controller must still see exactly one request), 3 (socket layer, directed routes) nothing listens on
+	// the controller's port: the datagram is refused (ICMP port unreachable) / the connection is refused - no OTHER endpoint
+	// may receive anything because of that
 	Behaviour int `json:"behaviour,omitempty"`
 	// hook layer: further calls on the SAME client after the first one (routing must not drift with the call history)
 	More []api.Case `json:"more,omitempty"`
@@ -159,7 +161,7 @@ func runSocket(c routeCase) (fail *rp.Fail, skipped bool) {
 		switch c.Behaviour {
 		case 1:
 			return []farm.Action{{Delay: timeoutMs * 7 / 10 * time.Millisecond, Data: reply(req)}}
-		case 2:
+		case 2, 3:
 			return nil
 		}
 		return []farm.Action{{Data: reply(req)}}
@@ -244,6 +246,14 @@ func runSocket(c routeCase) (fail *rp.Fail, skipped bool) {
 		defer hu.Close()
 		defer ht.Close()
 	}
+	refused := ""
+	if c.Behaviour == 3 {
+		if m, _ := cfg.Route(c.Call.Call.Serial, c.Call.Call.Op == "GetDevices"); m == "SendUDP" || m == "SendTCP" {
+			refused = fmt.Sprintf("controller-%d", c.Call.Call.Serial)
+			endpoints[refused].udp.Close()
+			endpoints[refused].tcp.Close()
+		}
+	}
 	u := hook.Real(cfg)
 	cs := c.Call
 	res, discovery := invoke(c, func(cs api.Case) api.Result { return api.Invoke(u, cs) }, func() error { _, err := u.GetDevices(); return err })
@@ -285,6 +295,9 @@ func runSocket(c routeCase) (fail *rp.Fail, skipped bool) {
 		return nil, false
 	}
 	for _, name := range names {
+		if name == refused {
+			continue // closed before the call: it refused whatever was sent to it
+		}
 		p := endpoints[name]
 		var ulog, tlog []farm.Received
 		conns := 0
@@ -296,7 +309,7 @@ func runSocket(c routeCase) (fail *rp.Fail, skipped bool) {
 			conns = p.tcp.Connections()
 		}
 		wantU, wantT := 0, 0
-		if name == wantName {
+		if name == wantName && refused == "" {
 			if wantTCP {
 				wantT = 1
 			} else {
@@ -325,7 +338,7 @@ func runSocket(c routeCase) (fail *rp.Fail, skipped bool) {
 			}
 		}
 	}
-	if res.Err != nil && c.Call.Call.Op != "GetDevices" && c.Behaviour != 2 {
+	if res.Err != nil && c.Call.Call.Op != "GetDevices" && c.Behaviour < 2 {
 		return rp.Failf("socket/call-failed", "%s (route %s) failed although the right endpoint answered: %v", c.Call.Call.Op, wantMethod, res.Err), false
 	}
 	return nil, false
@@ -349,7 +362,10 @@ func check(c routeCase) *rp.Fail {
 	if len(c.More) > 0 {
 		ev.Class(c.Layer+"/further-calls-on-the-same-client", int64(len(c.More)))
 	}
-	ev.Class(c.Layer+"/controller-"+[]string{"answers-at-once", "answers-late", "silent"}[c.Behaviour], 1)
+	ev.Class(c.Layer+"/controller-"+[]string{"answers-at-once", "answers-late", "silent", "port-closed-refuses"}[c.Behaviour], 1)
+	if c.Cfg.Debug {
+		ev.Class(c.Layer+"/client-with-debug-output", 1)
+	}
 	if ev.WantSample(class) {
 		ev.Sample(class, c)
 	}
@@ -379,7 +395,12 @@ func genCase(layer string) func(t *rapid.T) routeCase {
 			c.Behaviour = 1
 		case 2:
 			c.Behaviour = 2
+		case 3:
+			if layer == "socket" {
+				c.Behaviour = 3
+			}
 		}
+		c.Cfg.Debug = gen.Debug(t, "debug")
 		if rapid.Bool().Draw(t, "bind.specific") {
 			c.Cfg.BindIP = [4]byte{127, 0, 0, byte(rapid.IntRange(1, 9).Draw(t, "bind.ip"))}
 		}
@@ -406,7 +427,7 @@ func genCase(layer string) func(t *rapid.T) routeCase {
 			}
 			seen[s] = true
 			serials = append(serials, s)
-			d := hook.DeviceCfg{Name: fmt.Sprintf("c%d", i), Serial: s, ViaNew: rapid.Bool().Draw(t, "via.new"),
+			d := hook.DeviceCfg{Name: fmt.Sprintf("c%d", i), Serial: s, ViaNew: rapid.Bool().Draw(t, "via.new"), TZ: gen.DeviceTZ(t, "tz"),
 				Protocol: rapid.SampledFrom([]string{"udp", "tcp", "tcp", "", "any", "TCP", "Tcp", "tcp ", "udp4", "xyz"}).Draw(t, "protocol")}
 			switch rapid.IntRange(0, 5).Draw(t, "address.kind") {
 			case 0: // zero-value address
